@@ -445,9 +445,12 @@ pub fn reduced_alphabet(quick: bool) -> Vec<KOp> {
 
 fn closure_bfs<S: SetLike>(ctx: &mut Ctx, quick: bool) {
     let sys = Arc::new(KbSys::<S> { alphabet: reduced_alphabet(quick), _s: std::marker::PhantomData });
-    let g = bfs(&*sys, false);
+    let g = bfs(&*sys, false, 3_000_000);
+    if g.capped && g.bads.is_empty() {
+        ctx.machinery(&format!("closure bfs {}: state cap hit without closing the search", S::NAME));
+    }
     // stateright cross-check only in the quick-sized instance (its per-state property evaluation doubles the work)
-    let sr = if quick { Some(stateright_bfs(sys.clone())) } else { None };
+    let sr = if quick && !g.capped { Some(stateright_bfs(sys.clone(), 3_000_000)) } else { None };
     if let Some(sr) = &sr {
         if g.bads.is_empty() && sr.unique_states != g.states.len() {
             ctx.machinery(&format!("closure bfs {}: explorers disagree on state count ({} vs {})", S::NAME, g.states.len(), sr.unique_states));
